@@ -95,15 +95,29 @@ def gen_cases(rng, tier):
                 cases.append({"kind": "ppm", "bits": bits, "M": M, "decision": dec, "sps": rng.choice([8, 16]), "R": 1e9,
                               "Vpi": 3.5, "loss_dB": 3.0, "ER_dB": rng.choice([13.0, 30.0]), "P": 1e-3, "npol": rng.choice([1, 2]),
                               "pol": "x", "r": 0.9, "Rl": 50.0, "bw": rng.uniform(0.75, 1.2), "seed": rng.getrandbits(31)})
-    for _ in range(2 if tier == "quick" else 10):
+    # ook.DSP (eye-based threshold): the whole statement range — low extinction ratios with a very clean eye included
+    ook_grid = [(sps, shape, er, bw) for sps in (8, 16, 32, 33, 64) for shape in ("nrz", "gaussian")
+                for er in (10.0, 13.0, 20.0, 30.0) for bw in (0.7, 1.0, 1.5, 2.0)]
+    rng.shuffle(ook_grid)
+    must = [(16, "nrz", 10.0, 2.0), (32, "nrz", 13.0, 2.0), (16, "nrz", 10.0, 1.5), (33, "gaussian", 10.0, 0.7)]
+    for sps, shape, er, bw in must + ook_grid[: (6 if tier == "quick" else 60)]:
         kind = rng.choice(["random", "prbs"])
-        cases.append({"kind": "ook", "bits": _bits(rng, kind, rng.choice([32, 64, 128])), "pattern": kind, "sps": rng.choice([8, 16, 32]),
-                      "R": rng.choice([1e9, 10e9]), "Vpi": 3.5, "loss_dB": 3.0, "ER_dB": rng.choice([10.0, 20.0]), "P": 10 ** rng.uniform(-4, -2),
-                      "npol": rng.choice([1, 2]), "pol": "x", "r": 0.8, "Rl": 50.0, "bw": rng.uniform(0.7, 1.2), "seed": rng.getrandbits(31)})
+        cases.append({"kind": "ook", "bits": _bits(rng, kind, rng.choice([64, 128, 254])), "pattern": kind, "sps": sps,
+                      "R": rng.choice([1e9, 10e9]), "shape": shape, "Vpi": 3.5, "loss_dB": 3.0, "ER_dB": er, "P": 10 ** rng.uniform(-4, -2),
+                      "npol": rng.choice([1, 2]), "pol": "x", "r": 0.8, "Rl": 50.0, "bw": bw, "prop": "none", "seed": rng.getrandbits(31)})
+    # several links in ONE process with the same PD bandwidth while the sampling rate goes down (a stale filter design or
+    # any other state carried from one simulation to the next shows up here)
+    for _ in range(2 if tier == "quick" else 8):
+        R = rng.choice([1e9, 10e9])
+        cases.append({"kind": "sweep", "sps_seq": rng.choice([[64, 16, 8, 5, 4], [33, 8, 4], [64, 5], [16, 4, 16]]), "R": R,
+                      "nbits": 48, "pattern": rng.choice(["random", "prbs"]), "shape": rng.choice(["nrz", "nrz", "gaussian"]),
+                      "Vpi": 3.5, "loss_dB": 3.0, "ER_dB": rng.choice([13.0, 30.0]), "P": 1e-3, "npol": rng.choice([1, 2]), "pol": "x",
+                      "r": 0.9, "Rl": 50.0, "bw": 0.7, "prop": "none", "seed": rng.getrandbits(31)})
     for _ in range(30 if tier == "quick" else 300):
-        n = rng.choice([1, 2, 7, 64, 255])
+        n = rng.choice([1, 2, 7, 64, 255, 300, 600, 2100])
         tx = [rng.randint(0, 1) for _ in range(n)]
-        k = rng.randint(0, n)
+        k = rng.choice([0, 1, n, 255, 256, 257, 511, 512, 1000, rng.randint(0, n)])
+        k = min(k, n)
         pos = sorted(rng.sample(range(n), k))
         cases.append({"kind": "counter", "tx": tx, "flip": pos, "module": rng.choice(["ook", "ppm"]),
                       "form": rng.choice(["binary_sequence", "list", "ndarray"])})
@@ -175,7 +189,7 @@ def run_impl(case):
                     ber0 = mod.BER_analizer("counter", Tx=conv(tx), Rx=conv(tx))
                 res.update(status="ok", ber=float(ber), ber0=float(ber0), rx=rx)
                 return res
-            gv(sps=case["sps"], R=case["R"])
+            gv(sps=case.get("sps", 16), R=case["R"])
             np.random.seed(case.get("seed", 1234))
             if case["kind"] == "chain":
                 with time_limit(120):
@@ -190,6 +204,22 @@ def run_impl(case):
                 res.update(status="ok", decoded=dec, v0=v0, v1=v1, n=len(z), pre=[float(t) for t in spy["pre"]],
                            pre_noise_zero=bool(spy["pre_noise"] is None or not np.any(spy["pre_noise"])),
                            margin=float(np.max(np.abs(ys - lv)) / (abs(v1 - v0) / 2)), cls=type(z).__name__)
+            elif case["kind"] == "sweep":
+                rr = __import__("random").Random(case["seed"])
+                steps = []
+                for sps in case["sps_seq"]:
+                    gv(sps=sps, R=case["R"])
+                    bits = _bits(rr, case["pattern"], case["nbits"])
+                    c2 = dict(case, sps=sps)
+                    with time_limit(120):
+                        z, _ = _run_chain(c2, bits)
+                        smp = dev.SAMPLER(z, gv.sps // 2)
+                    v0, v1 = _levels(c2)
+                    ys = np.array(smp.signal.real, dtype=float)
+                    thr = (v0 + v1) / 2
+                    dec = [int(b) for b in ((ys > thr) if v1 > v0 else (ys < thr))]
+                    steps.append({"sps": sps, "bits": bits, "decoded": dec})
+                res.update(status="ok", steps=steps)
             elif case["kind"] == "ook":
                 import opticomlib.ook as ook
                 with time_limit(300):
@@ -273,7 +303,7 @@ def oracle(case, res):
         if res["ber0"] != 0:
             v.append(("C03:counter-zero", f"counter reports {res['ber0']} for identical sequences"))
         return v
-    tag = {k: case[k] for k in case if k not in ("bits",)}
+    tag = {k: case[k] for k in case if k not in ("bits", "tx")}
     if case["kind"] == "chain":
         if res["decoded"] != case["bits"]:
             nerr = sum(a != b for a, b in zip(res["decoded"], case["bits"])) + abs(len(res["decoded"]) - len(case["bits"]))
@@ -282,6 +312,13 @@ def oracle(case, res):
             v.append(("C03:chain-shape", f"received {res['cls']} of length {res['n']}"))
         if not res["pre_noise_zero"]:
             v.append(("C03:noise-free", "PD produced a non-zero noise component with every noise source switched off"))
+        return v
+    if case["kind"] == "sweep":
+        for i, st in enumerate(res["steps"]):
+            if st["decoded"] != st["bits"]:
+                nerr = sum(a != b for a, b in zip(st["decoded"], st["bits"]))
+                v.append(("C03:chain-after-reconfiguration", f"link {i} of the sequence sps={case['sps_seq']} (same PD bandwidth {case['bw']}*R, sps={st['sps']}): {nerr} bit errors {tag}"))
+                break
         return v
     want = case["bits"] if case["kind"] == "ook" else res["want"]
     if res["decoded"] != want:
@@ -311,4 +348,6 @@ def nontrivial_key(case, res):
         return None
     if case["kind"] == "counter":
         return ("counter", tuple(case["tx"]), tuple(case["flip"]), case["module"], case["form"]) if len(case["tx"]) > 1 else None
+    if case["kind"] == "sweep":
+        return ("sweep", tuple(case["sps_seq"]), case["R"], case["shape"], case["seed"])
     return (case["kind"], tuple(case["bits"]), case["sps"], case["R"], case.get("shape"), case.get("prop"), case["npol"], case["ER_dB"], case.get("M"), case.get("decision"))
